@@ -629,7 +629,7 @@ func (ex *Exec) newSliceRaw(st *State, t types.Type, ln, cp string, hint string,
 			_, inner := l.S.ArrParts()
 			return Sc{sto(l.T, r, ex.vc.Fresh("content", inner)), l.S}
 		}
-		return Sc{sto(l.T, r, fmt.Sprintf("((as const %s) %s)", ArrS(BV(64), z.S), z.T)), l.S}
+		return Sc{sto(l.T, r, zeroOf(ArrS(BV(64), z.S))), l.S}
 	})
 	ex.setHeapTree(st, AElems, el, nt)
 	return &Agg{F: []Val{Sc{r, SRef}, Sc{z64(), BV(64)}, Sc{ex.vc.Bind("len", BV(64), ln), BV(64)}, Sc{ex.vc.Bind("cap", BV(64), cp), BV(64)}}}
@@ -905,7 +905,7 @@ func (ex *Exec) valEq(a, b Val, t types.Type) string {
 	}
 	var cs []string
 	for i := range la {
-		if la[i].S == SFP && !(ex.specEq && len(la) > 1) {
+		if la[i].S == SFP && !(ex.specEq && (len(la) > 1 || ex.specBits)) {
 			cs = append(cs, app("fp.eq", la[i].T, lb[i].T))
 		} else if la[i].S.IsArr() {
 			// array-valued leaf of a non-packed array: element-wise over its length
